@@ -75,7 +75,46 @@ class MyInt(int):
   pass
 class MyList(list):
   pass
+class Base:
+  def __init__(self):
+    self.base = 0
+class Left(Base):
+  def __init__(self):
+    super().__init__()
+    self.left = 1
+class Right(Base):
+  def __init__(self):
+    super().__init__()
+    self.right = 'a'
+class Both(Left, Right):
+  def __init__(self):
+    super().__init__()
+    self.both = 1.5
+class Chain(Left):
+  def __init__(self):
+    super().__init__()
+    self.chain = [1]
+class Proxy:
+  def __init__(self, target):
+    self._target = target
+  def __getattr__(self, name):
+    return getattr(self._target, name)
+class Fallback:
+  def __getattr__(self, name):
+    return lambda *args: 0
+class Good(Fallback):
+  def __neg__(self):
+    return 1
+  def __call__(self, *a):
+    return 1
+  def __getitem__(self, k):
+    return k
+  def __add__(self, o):
+    return 1
 '''
+
+# classes whose instances resolve every attribute name through __getattr__
+GETATTR_CLASSES = ("GA", "Proxy", "Fallback", "Good")
 
 # named constants for the constant-foldable operands: CPython folds `1 + 1.5`
 # at compile time, so the literal spelling never reaches pytype's operator
@@ -147,6 +186,23 @@ C14_VALUES = [
     _v("NI()", "NI", False, "user"),
     _v("MyInt(3)", "MyInt", False, "user"),
     _v("MyList([1])", "MyList", False, "user"),
+    # multiple inheritance with cooperative super().__init__(): attributes set in sibling branches
+    _v("Both()", "Both", False, "user"),
+    _v("Chain()", "Chain", False, "user"),
+    # __getattr__ returning a callable / Any (delegation idiom): implicit dunder use must still fail
+    _v("Proxy([1, 2])", "Proxy", False, "user"),
+    _v("Fallback()", "Fallback", False, "user"),
+    _v("Good()", "Good", False, "user"),
+]
+
+# two-level operands that are also part of the quick tier: attributes reached
+# through a super().__init__() chain, then used under operators / subscripts / calls
+C14_DERIVED_QUICK = [
+    _v("Both().right", "str", True, "derived"),
+    _v("Both().base", "int", True, "derived"),
+    _v("Both().both", "float", True, "derived"),
+    _v("Chain().chain", "list", True, "derived"),
+    _v("Proxy([1, 2]).count(1)", "int", True, "derived"),
 ]
 
 # Two-level operands (thorough tier): clean one-level expressions over the
@@ -199,7 +255,7 @@ ATTRS = [
     # generic / dunder
     "__len__", "__class__", "__doc__", "__name__", "__add__", "__hash__",
     # user-class names
-    "ca", "ia", "m", "p",
+    "ca", "ia", "m", "p", "base", "left", "right", "both", "chain",
     # missing everywhere
     "foo", "Upper", "__nope__",
 ]
@@ -376,6 +432,69 @@ def c02_nested_slice():
           continue
         for order in C02_NESTED_ORDERS:
           out.append((form.format(x), _nested_value(outer, [pick[o] for o in order])))
+  seen, res = set(), []
+  for p in out:
+    if p not in seen:
+      seen.add(p)
+      res.append(p)
+  return res
+
+
+# ---------------------------------------------------------------------------
+# C02 "twin constant" modules (both tiers): small modules with a FIXED order of
+# cases whose value literals compare equal but differ in element type
+# ((1, 2) == (1.0, 2.0), (True, False) == (1, 0)); anything that memoises the
+# conversion of a constant by value makes the first literal decide the type of
+# the second.  Each inner list is analysed as one module, in this order.
+
+
+def c02_twin_modules():
+  t_ii, t_ff, t_bb = "Tuple[int, int]", "Tuple[float, float]", "Tuple[bool, bool]"
+  n_i, n_f = "Tuple[Tuple[int, int], str]", "Tuple[Tuple[float, float], str]"
+  l_i, l_f = "List[Tuple[int, int]]", "List[Tuple[float, float]]"
+  d_i = "Dict[str, Tuple[int, int]]"
+  return [
+      [(t_ii, "(1, 2)"), (t_ii, "(1.0, 2.0)"), (t_ff, "(1.0, 2.0)"), (t_ff, "(1, 2)")],
+      [(t_ff, "(1.0, 2.0)"), (t_ii, "(1, 2)"), (t_ii, "(1.0, 2.0)")],
+      [(t_bb, "(True, False)"), (t_bb, "(1, 0)"), (t_ii, "(1, 0)")],
+      [(t_ii, "(1, 0)"), (t_bb, "(True, False)"), (t_bb, "(1, 0)")],
+      [(t_ii, "(1, 2)"), (t_ii, "(1, 2.0)"), (t_ii, "(1.0, 2)")],
+      [(n_i, "((1, 2), 's')"), (n_i, "((1.0, 2.0), 's')")],
+      [(n_f, "((1.0, 2.0), 's')"), (n_i, "((1, 2), 's')")],
+      [(l_i, "[(1, 2)]"), (l_i, "[(1.0, 2.0)]")],
+      [(l_f, "[(1.0, 2.0)]"), (l_i, "[(1, 2)]")],
+      [(d_i, "{'k': (1, 2)}"), (d_i, "{'k': (1.0, 2.0)}")],
+      [("Tuple[Tuple[int, int], Tuple[int, int]]", "((1, 2), (1.0, 2.0))"),
+       ("Tuple[Tuple[float, float], Tuple[int, int]]", "((1.0, 2.0), (1, 2))")],
+      [("int", "1"), ("int", "1.0"), ("int", "True"), ("bool", "1"), ("bool", "True"),
+       ("float", "1.0"), ("float", "1"), ("complex", "1.0")],
+      [("FrozenSet[int]", "frozenset({1, 2})"), ("FrozenSet[int]", "frozenset({1.0, 2.0})")],
+  ]
+
+
+# ---------------------------------------------------------------------------
+# C02 slice "Optional / Union above a parameterised container" (both tiers):
+# heterogeneous list / dict / set literals in both orders (conforming element
+# first, non-conforming first) against the wrapped and the bare container type.
+
+def c02_union_container_slice():
+  inner = {
+      "List[int]": ["[1, 's']", "['s', 1]", "[1, 2]", "[1, 2, 's']", "[[1], ['s']]"],
+      "Dict[str, int]": ["{'a': 1, 'b': 's'}", "{'a': 's', 'b': 1}", "{'a': 1, 'b': 2}",
+                         "{'a': 1, 2: 2}"],
+      "Sequence[A]": ["[B(), C()]", "[C(), B()]", "[A(), B()]", "(B(), C())"],
+      "Set[int]": ["{1, 's'}", "{'s', 1}", "{1, 2}"],
+      "Iterable[int]": ["[1, 's']", "['s', 1]", "(1, 's')"],
+      "List[List[int]]": ["[[1], ['s']]", "[['s'], [1]]", "[[1], [2]]"],
+      "Mapping[str, int]": ["{'a': 1, 'b': 's'}", "{'a': 's', 'b': 1}"],
+  }
+  wrappers = ["Optional[{}]", "Union[{}, str]", "Union[str, {}]", "Union[None, int, {}]"]
+  out = []
+  for t, vals in inner.items():
+    for v in vals + ["None", "'s'"]:
+      out.append((t, v))
+      for w in wrappers:
+        out.append((w.format(t), v))
   seen, res = set(), []
   for p in out:
     if p not in seen:
